@@ -123,6 +123,7 @@ type env13 struct {
 	log       []string
 	built     map[int]parsley.Node
 	failCheck int // node id
+	pass      int // > 0: schemas returned by the checkers carry a mark (second StaticCheck of one tree)
 	failTrans int
 	failEval  int
 	problems  []string
@@ -166,7 +167,7 @@ func (c checkI) StaticCheck(userCtx interface{}, node parsley.NonTerminalNode) (
 	if c.e.failCheck == c.id {
 		return "BAD", parsley.NewError(node.Pos(), errors.New("check failed"))
 	}
-	return fmt.Sprintf("S%d", c.id), nil
+	return fmt.Sprintf("S%d%s", c.id, passMark(c.e.pass)), nil
 }
 
 type transI struct{ baseI }
@@ -219,8 +220,15 @@ func (b *blockNode) StaticCheck(userCtx interface{}) parsley.Error {
 	if b.e.failCheck == b.id {
 		return parsley.NewError(b.pos, errors.New("check failed"))
 	}
-	b.schema = fmt.Sprintf("S%d", b.id)
+	b.schema = fmt.Sprintf("S%d%s", b.id, passMark(b.e.pass))
 	return nil
+}
+
+func passMark(pass int) string {
+	if pass > 0 {
+		return "'"
+	}
+	return ""
 }
 
 // number assigns pre-order ids.
@@ -404,8 +412,18 @@ func checkC13(ci interface{}, st *Stats) (err error) {
 				checkers = append(checkers, n)
 			}
 		}
-		if c.FailCheck >= 0 && len(checkers) > 0 {
-			e.failCheck = checkers[c.FailCheck%len(checkers)].id
+		e.failCheck = -1
+		failIdx := c.FailCheck
+		if e.pass > 0 {
+			// the second check of the same tree: a failure now if there was none, none if there was one
+			if failIdx >= 0 {
+				failIdx = -1
+			} else {
+				failIdx = c.FailEval + 1 // any index, independent of the first pass
+			}
+		}
+		if failIdx >= 0 && len(checkers) > 0 {
+			e.failCheck = checkers[failIdx%len(checkers)].id
 			if e.failCheck != model.id {
 				abortDeep = true
 			}
@@ -446,7 +464,7 @@ func checkC13(ci interface{}, st *Stats) (err error) {
 					aborted[n.id] = true
 					continue
 				}
-				final[n.id] = fmt.Sprintf("S%d", n.id)
+				final[n.id] = fmt.Sprintf("S%d%s", n.id, passMark(e.pass))
 			case 4:
 				final[n.id] = final[n.Kids[n.Sel].id]
 			}
@@ -480,6 +498,16 @@ func checkC13(ci interface{}, st *Stats) (err error) {
 	if len(e.problems) > 0 {
 		return fmt.Errorf("%s", e.problems[0])
 	}
+	// the same tree checked a second time (another user context, say): every checker runs again,
+	// sees the schemas of this pass and its verdict counts
+	e.pass = 1
+	if err := runCheck(root, e, c.Root, "second StaticCheck of the same tree", nil); err != nil {
+		return err
+	}
+	if len(e.problems) > 0 {
+		return fmt.Errorf("%s", e.problems[0])
+	}
+	st.Class("tree statically checked twice")
 
 	// ---------- Transform ----------
 	e, root, _ = c.fresh()
